@@ -3,6 +3,7 @@ CONSTANTS
   SetPrios = {1, 7}
   Alphabet <- AlphaPertCond
   K = 1
+  ReAddPinned = FALSE
   CapBase = 0
 INIT Init
 NEXT Next
